@@ -132,7 +132,11 @@ Definition sp_step (i : N) (s : sp) (e : ev) (o : out) : sp * bool :=
     match e with
     | AllowInit => true
     | RefInit _ => false                  (* our response counts for the 5 s spacing *)
-    | TunBatchIErr (_ :: _) => if passed || behind then false else sp_allowed s   (* the refused attempt counts *)
+    | TunBatchIErr (_ :: _) =>
+        (* a refused attempt counts for the spacing.  Whether one was made cannot be seen on the wire, so the
+           weakest trigger is assumed: a counter that has REACHED RekeyAfterMessages (the obligation above only
+           speaks about counters that have passed it), or packets left behind *)
+        if existsb (fun t => Rekey <=? tx_ctr t) (o_tx o) || behind then false else sp_allowed s
     | _ => if 1 <=? o_init o then false else sp_allowed s
     end in
   let next' :=
